@@ -47,7 +47,11 @@ func VerifNewDaemon(l log.Logger, d DKGProcess, bps map[string]*BeaconProcess) *
 	for id, bp := range bps {
 		dd.beaconProcesses[id] = bp
 		if len(bp.chainHash) > 0 {
+			// as AddBeaconHandler registers them
 			dd.chainHashes[encodeHex(bp.chainHash)] = id
+			if common.IsDefaultBeaconID(id) {
+				dd.chainHashes[common.DefaultChainHash] = id
+			}
 		}
 	}
 	return dd
@@ -80,5 +84,7 @@ func (dd *DrandDaemon) VerifStateLockFree() bool {
 	return false
 }
 
-// VerifStopBeacon drops the handler the way StopBeacon does (bp.beacon = nil after Stop).
 func (bp *BeaconProcess) VerifHandler() *beacon.Handler { return bp.beacon }
+
+// VerifSetGateway sets the gateway the process uses as a client (Status connectivity checks).
+func (bp *BeaconProcess) VerifSetGateway(gw *net.PrivateGateway) { bp.privGateway = gw }
